@@ -115,10 +115,27 @@ VARIANTS = {
     "strconcat_mixed_quotes": ("strconcat", lambda n: "s = " + _sel(["'a'", '"b"', "'''c'''", "'\\''"], n, " ") + "\nprint(len(s))\n"),
     "elif_names_ending_in_digits": ("elif", lambda n: "x1=%d\nif x1==0:\n    print(0)\n" % (n - 1) + "".join("elif x1==%d:\n    y%d = %d\n    print(y%d)\n" % (i, i, i, i) for i in range(1, n))),
 }
+def _lam_defaults(n, star=""):
+    inner = "1"
+    for i in reversed(range(n)):
+        inner = "lambda %sq%d=%s: q%d" % (star, i, inner, i)
+    return inner
+
+
+# lambdas nested through their parameter *defaults* (the default of a lambda is converted in the enclosing scope, by another
+# path than its body), alone and started from a def
+VARIANTS.update({
+    "nested_lambda_defaults": ("nested_lambda", lambda n: "f = " + _lam_defaults(n) + "\nprint(f" + "()" * n + ")\n"),
+    "nested_lambda_kwonly_defaults": ("nested_lambda", lambda n: "f = " + _lam_defaults(n, "*, ") + "\nprint(f" + "()" * n + ")\n"),
+    "def_default_lambda_chain": ("nested_lambda", lambda n: "def f(a=" + _lam_defaults(n) + ", *, k=" + _lam_defaults(n) + "):\n    return a, k\nprint(f()[0]" + "()" * n + ", f()[1]" + "()" * n + ")\n"),
+    "lambda_default_then_body_alternating": ("nested_lambda", lambda n: "f = " + "".join("lambda a%d=lambda: " % i for i in range(n)) + "1" + "".join(": a%d" % i for i in reversed(range(n))) + "\nprint(f" + "()" * (2 * n) + ")\n"),
+})
 LIMITS_AS = {}
+OWN_LIMITS = {"nested_lambda_defaults", "nested_lambda_kwonly_defaults", "def_default_lambda_chain", "lambda_default_then_body_alternating"}
 for _k, (_base, _f) in VARIANTS.items():
     FAM[_k] = _f
-    LIMITS_AS[_k] = _base
+    if _k not in OWN_LIMITS:      # measured with tools/measure_limits.py: ast.unparse needs more frames per level there
+        LIMITS_AS[_k] = _base
 CLEAN = ("oneliner", "list", "if_expr")
 QUICK_CFGS = [envs.DEFAULT_CFG, CLEAN, ("oneliner", "chain_call", "if_expr"), ("ast.unparse", "list", "if_expr"),
               ("oneliner", "list", "short_circuit"), ("ast.unparse", "chain_call", "short_circuit")]
